@@ -228,9 +228,15 @@ class ModelState:
             if not others:
                 self.dirty[res] = "clean"
 
-    def exit(self):
-        """Pop the innermost context. Returns the list of resources that get flushed."""
-        kind, x = self.stack.pop()
+    def exit(self, which=None):
+        """Leave the innermost context (or, with ``which`` = root id, that root's most recent
+        ``buffered`` context - per-object contexts are independent objects and may be left in
+        any order). Returns the list of resources that get flushed."""
+        if which is None:
+            kind, x = self.stack.pop()
+        else:
+            idx = max(i for i, e in enumerate(self.stack) if e == ("obj", which))
+            kind, x = self.stack.pop(idx)
         before = {r: self.is_buffered_root(r) for r in self.obj_count}
         if kind == "obj":
             self.obj_count[x] -= 1
@@ -255,6 +261,10 @@ class ModelState:
             acc.append(self.truth[res])
         if d in ("dirty", "maybe"):
             acc.append(self.logical[res])
+            if self.truth[res] == MISSING and self.logical[res] == _empty(self.kind):
+                # nothing but the empty container to write over a missing file: a strategy that
+                # compares content may skip the write
+                acc.append(MISSING)
         return acc
 
 
@@ -529,15 +539,20 @@ class Session:
 
     def _do_exit(self, step):
         m = self.model
-        cm = self.ctx_stack.pop()
-        kind = m.stack[-1][0]
+        which = step.get("h") if step.get("exit") == "obj" else None
+        if which is None:
+            idx = len(self.ctx_stack) - 1
+        else:
+            idx = max(i for i, e in enumerate(m.stack) if e == ("obj", which))
+        cm = self.ctx_stack.pop(idx)
+        kind = m.stack[idx][0]
         try:
             cm.__exit__(None, None, None)
         except Exception as e:  # noqa: BLE001
-            m.exit()
+            m.exit(which)
             self.viol("context", f"leaving {kind} context raised {type(e).__name__}: {e}",
                       op="exit_" + kind, exc=type(e).__name__)
-        flushed = m.exit()
+        flushed = m.exit(which)
         for res in flushed:
             acc = m.note_flushed(res)
             if acc is None:
